@@ -310,6 +310,14 @@ func (c *fxCtx) stmts(list []ast.Stmt, k string) string {
 		for _, l := range x.Lhs {
 			acts = append(acts, c.acts(l)...)
 		}
+		// a constant assigned to a field (t.isSecure = true, s.TlsEnabled = false): an act of its own
+		if x.Tok == token.ASSIGN && len(x.Lhs) == 1 && len(x.Rhs) == 1 {
+			if sel, ok := x.Lhs[0].(*ast.SelectorExpr); ok {
+				if id, ok := x.Rhs[0].(*ast.Ident); ok && (id.Name == "true" || id.Name == "false" || id.Name == "nil") {
+					acts = append(acts, ".call "+fxStr("set "+exprString(sel)+"="+id.Name))
+				}
+			}
+		}
 		return wrapActs(acts, kk)
 	case *ast.IncDecStmt:
 		op := "inc "
